@@ -47,6 +47,13 @@ example : (SV.record [("b", .num F64.one), ("a", .list [.str "x\"\\", .null, .bo
     (SV.record [("b", .num F64.one), ("a", .list [.str "x\"\\", .null, .bool true])]).finite = true := by
   decide
 
+example : ∀ pf : ParseFn,
+    (SV.record [("b", .num F64.one), ("a", .list [.str "x", .null]), ("__blots_function", .null)]).noFn pf = true := by
+  intro pf; rfl
+
+example : (SV.record [("a", .null), ("b", .record [("", .num F64.one), ("1", .str "s")])]).canonical = true := by
+  decide
+
 /-! #### `Value` ⇄ `SV` is exact on data -/
 
 /-- `to_value (from_value v) = v` for every data value, as trees (no reordering, no
@@ -142,6 +149,11 @@ theorem json_echo_tree (pf : ParseFn) (j : Json) (hf : j.finite = true) (hn : j.
 theorem json_echo (pf : ParseFn) (j : Json) (hf : j.finite = true) (hn : j.norm.noFnObj pf = true) :
     jeq (toJson (fromJson pf j.norm)) j = true := by
   rw [json_echo_tree pf j hf hn]; exact jeq_norm j hf
+
+example : ∀ pf : ParseFn,
+    (Json.obj [("b", .num F64.one), ("a", .arr [.str "x"]), ("b", .null)]).finite = true ∧
+    (Json.obj [("b", .num F64.one), ("a", .arr [.str "x"]), ("b", .null)]).norm.noFnObj pf = true := by
+  intro pf; exact ⟨by decide, rfl⟩
 
 /-- the whole path of `output x = inputs.x`: document → value → output tree -/
 theorem document_echo (pf : ParseFn) (pb : ParseBody) (j : Json) (hf : j.finite = true)
